@@ -116,6 +116,8 @@ def lib():
         kind = spec[0]
         if kind == "const":  # D = m*dt
             return ConstantInterrupts(spec[1] * dt)
+        if kind == "const_abs":  # D = m*dt, active from the ABSOLUTE time spec[2] on (e.g. exactly 0.0, a falsy value)
+            return ConstantInterrupts(spec[1] * dt, t_start=spec[2])
         if kind == "constnum":  # plain number -> parse_interrupt
             return spec[1] * dt
         if kind == "fixed":  # list of offsets in units of dt from t_start; "end+k" allowed
